@@ -39,13 +39,15 @@ func (check typecheck) assignment(n *node, typ *itype, context string) error {
 		return n.cfgErrorf("invalid type in %s", context)
 	}
 	if n.typ.untyped {
+		ctyp := typ
 		if typ == nil || isInterface(typ) {
 			if typ == nil && n.typ.cat == nilT {
 				return n.cfgErrorf("use of untyped nil in %s", context)
 			}
-			typ = n.typ.defaultType(n.rval, check.scope)
+			// The constant takes its default type, then is checked against the interface type below.
+			ctyp = n.typ.defaultType(n.rval, check.scope)
 		}
-		if err := check.convertUntyped(n, typ); err != nil {
+		if err := check.convertUntyped(n, ctyp); err != nil {
 			return err
 		}
 	}
@@ -1118,6 +1120,10 @@ func (check typecheck) convertUntyped(n *node, typ *itype) error {
 		n.typ = typ
 		return nil
 	case isNumber(ttyp) || isString(ttyp) || isBoolean(ttyp):
+		if n.typ.isNil() || isBoolean(ntyp) != isBoolean(ttyp) {
+			// Not caught below: nil, true and false are not constant values.
+			return convErr
+		}
 		ityp = typ
 		rtyp = ttyp
 	case isInterface(typ):
